@@ -1007,7 +1007,19 @@ async fn run_udp(_idx: usize, u: UdpPeer, sh: Arc<Shared>) {
             continue;
         }
         if op.op == "send" {
-            let to = parse_addr(op.to.as_deref().unwrap_or(""));
+            let to_s = op.to.clone().unwrap_or_default();
+            let to = if let Some(conn) = to_s.strip_prefix("socks5reply:") {
+                // destination = BND.ADDR:BND.PORT of the SOCKS5 reply recorded on connection `conn`
+                match socks5_reply_addr(&sh, conn) {
+                    Some(a) => a,
+                    None => {
+                        sh.record(json!({"actor": u.id, "udp": "send_err", "err": "no socks5 reply recorded", "t": sim::now_us(), "s": sim::stamp()}));
+                        continue;
+                    }
+                }
+            } else {
+                parse_addr(&to_s)
+            };
             let data = op.data();
             match sock.try_send_to(&data, to) {
                 Ok(_) => sh.record(dgram_record(&u.id, "send", &to, &data)),
@@ -1015,6 +1027,21 @@ async fn run_udp(_idx: usize, u: UdpPeer, sh: Arc<Shared>) {
             }
         }
     }
+}
+
+fn socks5_reply_addr(sh: &Arc<Shared>, conn: &str) -> Option<SocketAddr> {
+    let recs = sh.records.lock().unwrap();
+    for r in recs.iter() {
+        if r.get("conn").and_then(|c| c.as_str()) == Some(conn) && r.get("label").and_then(|c| c.as_str()) == Some("reply") {
+            let d = unhex(r.get("hex")?.as_str()?);
+            let (mut a, _) = parse_socks_udp_ip(&d)?;
+            if a.ip().is_unspecified() {
+                a.set_ip("10.0.0.1".parse().unwrap());
+            }
+            return Some(a);
+        }
+    }
+    None
 }
 
 fn parse_socks_udp_ip(d: &[u8]) -> Option<(SocketAddr, usize)> {
